@@ -33,6 +33,8 @@ def _apply(node, patches):
         if not action:
             raise Exception("Unknown action: %s %s" % (node.name, patch_))
         node = action(node, patch_)
+    if isinstance(node, model.Struct) and any(member.greedy for member in node.members[:-1]):
+        raise Exception("Greedy field is not the last one after patching: %s" % node.name)
     return node
 
 
